@@ -191,3 +191,59 @@ def input_tables(names):
 def first_row(t):
     """index of the lowest set bit of a table (a failing row)"""
     return (t & -t).bit_length() - 1
+
+
+# -- numeric unitary of a gate list (A8: standard meaning of the gate names; qubit 0 = least significant bit) -----
+
+def unitary(gs, nq):
+    import cmath
+    import math
+
+    import numpy as np
+    dim = 2 ** nq
+    U = np.eye(dim, dtype=complex)
+    r2 = 2 ** -0.5
+    one = {"X": [[0, 1], [1, 0]], "Y": [[0, -1j], [1j, 0]], "Z": [[1, 0], [0, -1]], "H": [[r2, r2], [r2, -r2]],
+           "S": [[1, 0], [0, 1j]], "T": [[1, 0], [0, cmath.exp(1j * math.pi / 4)]], "I": [[1, 0], [0, 1]]}
+    for g, ws, p in gs:
+        k = type(g).__name__
+        if k in ("Barrier", "NopGate"):
+            continue
+        inner = type(g.gate).__name__ if k == "MCtrl" else None
+        M = np.zeros((dim, dim), dtype=complex)
+        for b in range(dim):
+            bits = [(b >> i) & 1 for i in range(nq)]
+            if k in one or k == "P":
+                m = np.array(one[k] if k in one else [[1, 0], [0, cmath.exp(1j * p)]], dtype=complex)
+                for out in (0, 1):
+                    nb = list(bits)
+                    nb[ws[0]] = out
+                    M[sum(x << i for i, x in enumerate(nb)), b] += m[out, bits[ws[0]]]
+            elif k in ("CX", "CCX", "MCX") or (k == "MCtrl" and inner == "X"):
+                nb = list(bits)
+                if all(bits[w] for w in ws[:-1]):
+                    nb[ws[-1]] ^= 1
+                M[sum(x << i for i, x in enumerate(nb)), b] = 1
+            elif k == "CZ" or (k == "MCtrl" and inner == "Z"):
+                M[b, b] = -1 if all(bits[w] for w in ws) else 1
+            elif k == "CP":
+                M[b, b] = cmath.exp(1j * p) if all(bits[w] for w in ws) else 1
+            elif k == "Swap":
+                nb = list(bits)
+                nb[ws[0]], nb[ws[1]] = nb[ws[1]], nb[ws[0]]
+                M[sum(x << i for i, x in enumerate(nb)), b] = 1
+            else:
+                raise ValueError(f"no standard meaning recorded for gate {k}")
+        U = M @ U
+    return U
+
+
+def bit_reverse_unitary(U, nq):
+    """the same operator with qubit 0 as the MOST significant bit (Cirq's convention)"""
+    import numpy as np
+    dim = 2 ** nq
+    perm = [int(format(i, f"0{nq}b")[::-1], 2) if nq else 0 for i in range(dim)]
+    P = np.zeros((dim, dim))
+    for i, j in enumerate(perm):
+        P[j, i] = 1
+    return P @ U @ P.T
